@@ -201,6 +201,7 @@ def run_units(ctx: Ctx, module, units: list):
     inside the library => violation; raised from the harness => unit error (inconclusive)."""
     for spec in units:
         ctx.cur_unit = spec
+        t_unit = time.time()
         try:
             module.run_unit(ctx, spec)
         except Exception as e:  # noqa: BLE001
@@ -217,6 +218,11 @@ def run_units(ctx: Ctx, module, units: list):
             else:
                 ctx.unit_errors.append({"unit": spec, "error": text})
         ctx.units_run += 1
+        dt = time.time() - t_unit
+        slow = ctx.notes.setdefault("slowest_units_s", {})
+        slow[str(spec.get("unit"))] = round(dt, 2)
+        if len(slow) > 12:
+            del slow[min(slow, key=slow.get)]
     ctx.cur_unit = None
 
 
